@@ -47,6 +47,20 @@ ADAPT_SQLS = [
 STYLES = ['qmark', 'format', 'numeric', 'named', 'pyformat']
 
 
+THRESH = 100
+
+
+def _big(x):
+    # hybrid function inlined into queries; reads a module global whose value and type the histories change
+    return x.bal > THRESH
+
+
+def _make_pred(th):
+    def pred(x):        # same code object every time, the closure cell differs
+        return x.bal >= th
+    return pred
+
+
 def canon(x):
     if isinstance(x, core.Entity):
         return ['E', type(x).__name__, x._pkval_]
@@ -180,6 +194,25 @@ class Exec(object):
             return [(x.id, sorted(i.id for i in x.items)) for x in select(x for x in Acct if x.bal >= v).prefetch(Acct.items).order_by(Acct.id)]
         if name == 'q_rawfrag':
             return select(x.id for x in Acct if raw_sql('x.bal >= $v')).order_by(1)[:]
+        if name == 'q_hybrid':
+            # hybrid method / property / function whose global (or closure cell) changes value and type between
+            # executions of the same query code object
+            global THRESH
+            k = a % 5
+            if k == 0:
+                self.ns['LIMIT'] = v
+                return select(x.id for x in Acct if x.rich()).order_by(1)[:]
+            if k == 1:
+                self.ns['MARK'] = v
+                return select(x.id for x in Acct if x.marked).order_by(1)[:]
+            if k == 2:
+                THRESH = v
+                return select(x.id for x in Acct if _big(x)).order_by(1)[:]
+            if k == 3:
+                pred = _make_pred(v)
+                return select(x.id for x in Acct if pred(x)).order_by(1)[:]
+            self.ns['LIMIT'] = v
+            return select(x.id for x in Acct if x.near(c % 3 * 50)).order_by(1)[:]
         if name == 'raw':
             x = (0, 1, 2, 100)[b % 4]
             y = ('n1', 'acct%', None, '%')[c % 4]
